@@ -113,6 +113,38 @@ func runC17(p *eng.Prog, r *eng.Report, tier string) {
 	}
 	c.r.Floor("C17.1", "returns of the split functions", nret, 16)
 	c.r.Floor("C17.2", "run-length (quote start) token returns", runTok, 1)
+	// the closing fence: whether ``` at the start of a line closes the block
+	// depends on the byte after it. When the buffer ends right after the
+	// fence, that byte has not arrived: the block may be closed only at the
+	// end of the input (otherwise the decision depends on the chunking)
+	if sp := c.fn("C17.2", "styling", "(*Decoder).scanPre"); sp != nil {
+		g := sp.Graph()
+		nEnd := 0
+		sp.WalkBody(func(nd ast.Node) bool {
+			as, ok := nd.(*ast.AssignStmt)
+			if !ok || as.Tok != token.OR_ASSIGN {
+				return true
+			}
+			if k, _ := sp.FieldClass(as.Lhs[0]); k != "styling.Decoder.mask" {
+				return true
+			}
+			pt, okp := g.Where(as)
+			if !okp {
+				return true
+			}
+			nEnd++
+			okd, why := g.DominatedAny(pt, []string{
+				"or(!eq(builtin.len(p0),builtin.len(var:styling.fence)) | !eq(bytes.Index(p0,var:styling.fence),0) | p1)",
+				"or(!eq(builtin.len(p0),builtin.len(var:styling.fence)) | p1)",
+				"p1",
+				"!eq(builtin.len(p0),builtin.len(var:styling.fence))",
+				"lt(builtin.len(var:styling.fence),builtin.len(p0))",
+			})
+			c.r.Check("C17.2", sp, "closing fence decided with the next byte in view", "G: the pre block is closed only when the buffer goes on after the fence or the input ends here (a fence at the very end of a chunk waits for more data)", as.Pos(), okd, why)
+			return true
+		})
+		c.r.Floor("C17.2", "closing-fence sites in scanPre", nEnd, 1)
+	}
 	c.r.CheckNamed("C17.2", "styling.(*Decoder).scan", "incomplete fence line waits for more data", "a line that begins with the code fence but whose end has not arrived yet is not classified: scan asks for more data under HasPrefix(data, fence)", 0, fenceWait >= 1, "no need-more-data return under the fence-prefix test: an incomplete fence line is handed on as ordinary text")
 
 	// ---- C17.4b an open span has priority over block-level constructs -----------------
